@@ -112,6 +112,13 @@ func c06Positions() []c06Pos {
 		// slice equality is unspecified: skip slices of the same type
 		add(c06Pos{name: "compare-slice" + op + ".right", stmt: "r := vsi " + op + " %H\nprint(r)", accept: nil, skip: func(o c06Offer) bool { return o.typ == "[]int" }})
 	}
+	// comparison chains (left-associative): the second operator compares a bool
+	add(c06Pos{name: "compare-chain.last", stmt: "r := vi < 2 == %H\nprint(r)", accept: []string{"bool"}})
+	add(c06Pos{name: "compare-chain.middle", stmt: "r := vi < %H == true\nprint(r)", accept: []string{"int"}})
+	add(c06Pos{name: "compare-chain-string.last", stmt: "r := vs == \"x\" != %H\nprint(r)", accept: []string{"bool"}})
+	add(c06Pos{name: "compare-chain-three.last", stmt: "r := vi == 1 != vb == %H\nprint(r)", accept: []string{"bool"}})
+	add(c06Pos{name: "arith-chain.last", stmt: "r := vi + 1 - 2 * %H\nprint(r)", accept: []string{"int"}})
+	add(c06Pos{name: "logical-chain.last", stmt: "r := vb && vi < 2 || %H\nprint(r)", accept: []string{"bool"}})
 	for _, op := range []string{"<", ">="} { // ordering of bools is not allowed; of strings unspecified
 		add(c06Pos{name: "order-bool" + op + ".right", stmt: "r := vb " + op + " %H\nprint(r)", accept: nil})
 		add(c06Pos{name: "order-string" + op + ".right", stmt: "r := vs " + op + " %H\nprint(r)", accept: nil, skip: func(o c06Offer) bool { return o.typ == "string" }})
